@@ -81,6 +81,13 @@ def gen_c14(tier, rng):
         for j in range(len(variants)):
             ops.append("pk eq v%d v%d" % (i, j))
     cases.append(Case("c14f", ops, True, ("one-field-differs",), meta={"fieldwise": len(variants)}))
+    # payloads whose size is a multiple of 65536 (the 16-bit wire length reads 0): equality must still look at the bytes
+    ops = [Pkt(0x01FF, b"").line("z0").replace(" -", " gen:65536:1"), Pkt(0x01FF, b"").line("z1").replace(" -", " gen:65536:2"),
+           Pkt(0x01FF, b"").line("z2").replace(" -", " gen:65536:1"), Pkt(0x01FF, b"").line("z3"), Pkt(None, None).line("z4")]
+    for i in range(5):
+        for j in range(5):
+            ops.append("pk eq z%d z%d" % (i, j))
+    cases.append(Case("c14z", ops, True, ("payload-multiple-of-65536",), meta={"eqclasses": [[0, 2], [1], [3, 4]], "noshrink": True}))
     # TECMP payload objects: copy / assignment / equality (incl. x == x and empty payloads)
     for _ in range(20 if tier == "quick" else 200):
         ops = []
@@ -162,6 +169,16 @@ def pred_c14(case, impl, model, ctx):
             w = o.split(" ")
             if w[0] == "pk" and w[1] == "eq":
                 if (l[3] == "1") != (w[2] == w[3]):
+                    return False
+    if case.meta.get("eqclasses"):
+        cls = {}
+        for ci, members in enumerate(case.meta["eqclasses"]):
+            for x in members:
+                cls["z%d" % x] = ci
+        for o, l in zip(case.ops, impl):
+            w = o.split(" ")
+            if w[0] == "pk" and w[1] == "eq":
+                if (l[3] == "1") != (cls[w[2]] == cls[w[3]]):
                     return False
     # symmetric: collect eq results per (a, b) in the same block (between mutating operations)
     block = {}
